@@ -677,12 +677,8 @@ class Plucker(SMUserList):
             l = np.linalg.norm(np.cross(l1.w, l1.v - l2.v * np.dot(l1.w, l2.w) / np.dot(l2.w, l2.w))) / np.dot(l1.w, l1.w)
         else:
             # lines are not parallel
-            if abs(l1 * l2) < 10*_eps:
-                # lines intersect at a point
-                l = 0
-            else:
-                # lines don't intersect, find closest distance
-                l = abs(l1 * l2) / np.linalg.norm(np.cross(l1.w, l2.w))**2
+            # |reciprocal product| / |w1 x w2|, zero for intersecting lines
+            l = abs(np.dot(l1.w, l2.v) + np.dot(l2.w, l1.v)) / np.linalg.norm(np.cross(l1.w, l2.w))
         return l
 
     
